@@ -115,6 +115,20 @@ def untrustedOut (N : Net Addr Prefix) (cfg : Cfg Prefix) (c : Conn) (dF dP dH :
              if cfg.omitXFP && !dP then some none else some (some [protoOf c]),
              if cfg.omitXFH && !dH then some none else some (some [c.host])⟩⟩
 
+/-! ### consumers -/
+
+/-- a range's zone filter accepts the zone of the address -/
+def zoneOK (r : MRange Prefix) (zoneID : Bytes) : Bool := decide (r.zone = []) || decide (zoneID = r.zone)
+
+/-- what the consumers need of `net/netip`'s printing: `Addr.String` output is not `host:port`
+    shaped, carries no zone, parses back to the same address, and "" is not an address.
+    (True of netip for the zone-less addresses the code prints; a hypothesis here.) -/
+structure PrintsParseBack (N : Net Addr Prefix) : Prop where
+  noPort : ∀ a, splitHostPort (N.toString a) = none
+  noZone : ∀ a, cutZone (N.toString a) = N.toString a
+  back : ∀ a, N.parseAddr (N.toString a) = some a
+  emptyInvalid : N.parseAddr [] = none
+
 /-- a field that held nil is simply absent once the header map has been copied value by value
     (either way the field is not sent) -/
 def dropNil : Option (Option (List Bytes)) → Option (Option (List Bytes))
